@@ -751,10 +751,40 @@ func run(c *fw.Ctx) {
 			}
 		})
 	}
+	// the library's own registrations are defaults
+	if c.Mine(9000001) {
+		cases, err := appDefaultCases()
+		if err != nil {
+			c.Infra("library defaults: %v", err)
+			return
+		}
+		c.R.Info["library_registered_names"] = len(cases)
+		for _, cs := range cases {
+			c.R.Evaluations++
+			c.Count("library_default_cases", 1)
+			if f := runAppDefault(cs); f != nil {
+				sg := "C10/" + f.kind
+				if c.Violated(sg) {
+					c.Violate(&fw.Violation{Signature: sg})
+					continue
+				}
+				c.Violate(&fw.Violation{Property: "C10", Clause: f.clause, Signature: sg, Detail: f.detail, Witness: fw.JSON(map[string]interface{}{"library_default": cs})})
+			}
+		}
+	}
 	c.R.Distinct = c.R.Evaluations
 }
 
 func replay(wj json.RawMessage) (*fw.Violation, error) {
+	var lw struct {
+		Case *AppDefaultCase `json:"library_default"`
+	}
+	if err := json.Unmarshal(wj, &lw); err == nil && lw.Case != nil {
+		if f := runAppDefault(*lw.Case); f != nil {
+			return &fw.Violation{Property: "C10", Clause: f.clause, Signature: "C10/" + f.kind, Detail: f.detail}, nil
+		}
+		return nil, nil
+	}
 	var p Program
 	if err := json.Unmarshal(wj, &p); err != nil {
 		return nil, err
